@@ -352,9 +352,13 @@ func rulesC11(p *Prog, r *Report) {
 		}
 		n := 0
 		deletesRecord := false
+		setsRecord := false
 		for _, c := range calls(fn) {
 			if p.callIs(c, "DeleteUserLimitBidData") {
 				deletesRecord = true
+			}
+			if p.callIsFn(c, setLB) {
+				setsRecord = true
 			}
 		}
 		for _, b := range fn.Blocks {
@@ -386,6 +390,16 @@ func rulesC11(p *Prog, r *Report) {
 				if op == "Sub" {
 					amts = append(append([]string{}, outAmts...), feeBases(p, fn, isAuctionMod)...)
 				}
+				if op == "Sub" && tn == "LimitBidProtocolData" && deletesRecord && !setsRecord {
+					// the deposit record is deleted on every path: the total drops by the deposit as it
+					// was stored, not by what is paid out after the fee
+					amts = nil
+					for _, c := range calls(fn) {
+						if call, isCall := c.(*ssa.Call); isCall && p.callIsFn(c, getLB) {
+							amts = append(amts, idOf(call)+"#0.DebtToken.Amount")
+						}
+					}
+				}
 				if allAltsIn(alts, amts) {
 					r.OK("R11.5", construct, "book change is the custody amount (gross of the stated fee)", p.instrPos(st))
 				} else {
@@ -416,6 +430,42 @@ func rulesC11(p *Prog, r *Report) {
 				r.OK("R11.5", name+" record key", "looked up and stored under the same (debt asset, collateral asset, premium)", p.pos(fn.Pos()))
 			} else {
 				r.Fail("R11.5", name+" record key", "the limit-bid record is looked up under a different (debt asset, collateral asset, premium) key than it is stored under: an existing deposit is not found and gets overwritten", p.pos(fn.Pos()), nil)
+			}
+		}
+	}
+	// R11.8 bid-step rounding ---------------------------------------------------------------
+	// "improves by at least the bid factor": the minimum step BidFactor x standing bid is an
+	// inexact decimal; turned into coins it must be rounded UP in every English auction.
+	r.Rule("R11.8", "the minimum bid step derived from BidFactor is rounded up when converted to coins", 3)
+	for _, fn := range p.Funcs {
+		m := moduleOf(fn)
+		if (m != "auction" && m != "auctionsV2") || p.isAuxFn(fn) {
+			continue
+		}
+		n := 0
+		for _, c := range calls(fn) {
+			call, ok := c.(*ssa.Call)
+			if !ok {
+				continue
+			}
+			sn := calleeShortName(&call.Call)
+			if sn != "TruncateInt" && sn != "RoundInt" && sn != "TruncateInt64" && sn != "RoundInt64" {
+				continue
+			}
+			if !strings.HasPrefix(calleeFullName(&call.Call), "cosmossdk.io/math.LegacyDec.") || len(call.Call.Args) == 0 {
+				continue
+			}
+			if !p.originHasField(call.Call.Args[0], "", "BidFactor") {
+				continue
+			}
+			n++
+			r.Instance("R11.8")
+			r.FuncsSeen[fname(fn)] = true
+			construct := fmt.Sprintf("%s bid step #%d", fname(fn), n)
+			if d := p.roundDir(call); d == "UP" {
+				r.OK("R11.8", construct, "BidFactor x standing bid is rounded up", p.instrPos(call))
+			} else {
+				r.Fail("R11.8", construct, "the minimum step computed from BidFactor is rounded "+d+" instead of up: a bid that improves by less than the bid factor (or not at all, when the step rounds to zero) is accepted", p.instrPos(call), nil)
 			}
 		}
 	}
